@@ -1,6 +1,6 @@
 """C13 — membership: no false deaths on a healthy network, real failures are detected.
 
-Correspondence: clusters of 3–8 real `MembershipProtocol` nodes run inside the real `Simulation`
+Correspondence: clusters of 2–8 real `MembershipProtocol` nodes run inside the real `Simulation`
 over the real `Network`/`NetworkLink` objects of /repo.  The harness chooses every one-way delay
 (a latency object fed from the case seed), the `random.shuffle` results (probe order, delegates),
 crash times, and the `Network.partition()` / `Partition.heal()` calls (partial, healing and
@@ -13,7 +13,11 @@ after every delivered event the acting node's `get_member_state` row, the messag
 Second family: a stand-alone `PhiAccrualDetector` driven by heartbeat times and sampled on an
 increasing time grid (mean/std bit patterns and `is_available` decisions are compared with the
 model's float glue; the sampled phi values are judged for monotonicity, `+inf` included, along
-silences that reach the subnormal range of the tail probability and its underflow).
+silences that reach the subnormal range of the tail probability and its underflow).  The sample
+times of a silence are refined *adaptively* while the implementation runs (`refine_samples`: bounded
+increments, 1 ns bisection + dyadic ladder around every level 1…16 / threshold / float-regime
+boundary, bisection into slope anomalies); every sample taken is listed in the transcript, the model
+is asked about exactly those times (`model_block_from_impl`) and the Lean judge sees all of them.
 """
 from __future__ import annotations
 
@@ -320,22 +324,288 @@ def run_cluster(case):
     return out, sched
 
 
-def run_phi(case):
+# ---------------------------------------------------------------------------------------------
+# adaptive sampling of phi along one silence
+#
+# The case fixes the heartbeats and a coarse list of sample times per silence.  The harness then
+# *chooses further sample times from the values the implementation returns* (a deterministic function
+# of the implementation), so that a local decrease of phi is found wherever it is, not only where the
+# generator happened to put two samples:
+#   A  subdivide until consecutive samples differ by at most 0.05 (phi < 20) / 2 (beyond);
+#   B  for every level in LEVELS (1 … 16, the threshold, the phi values at which the float formula
+#      changes regime: libm erfc break points, subnormal tail probability, underflow to +inf) bisect
+#      down to 1 ns to the first sample that reaches the level, then probe both sides of it at
+#      1, 2, 4, … ns (a downward step sitting exactly at such a level is straddled);
+#   C  slope anomalies: exact phi is convex in time (the normal tail is log-concave), so an interval
+#      whose slope is lower than its left neighbour's hides a downward step (higher than its right
+#      neighbour's: an upward one); the most deficient / most excessive intervals are bisected down
+#      to 1 ns, always into the half that carries the anomaly.
+# Convexity only directs the search; what is judged (Lean `judge-phi`) is monotonicity of the sampled
+# values, on the transcript that lists every sample taken, in time order.
+
+_SQ2 = math.sqrt(2.0)
+_REGIME_Y = [x * _SQ2 for x in (-6.0, -1 / 0.35, -1.25, -0.84375, 0.0, 0.84375, 1.25, 1 / 0.35, 6.0, 28.0)]
+_SUBNORMAL = -math.log10(2.2250738585072014e-308)
+
+
+def phi_levels(thr):
+    """the documented thresholds first, then the regime boundaries of the float formula, then far out"""
+    first = [float(k) for k in range(1, 17)]
+    if float(thr) not in first:
+        first.append(float(thr))
+    regime = sorted({phi_of_y(y) for y in _REGIME_Y} | {0.5})
+    far = [20.0, 50.0, 100.0, 200.0, 300.0]
+    out = []
+    for l in first + [_SUBNORMAL] + regime + far:
+        if 0 < l <= _SUBNORMAL and l not in out:
+            out.append(l)
+    return out
+
+
+def refine_samples(f, base, thr, budget=2600):
+    """base: sorted sample times (ns) of one silence; f(ns) -> phi.  Returns the sorted list of all
+    times sampled.  Stops as soon as two consecutive samples decrease (or a NaN shows up).
+
+    Refinement is confined to the part of the silence in which the tail probability is a *normal*
+    double (phi <= 307.65, plus 2^20 ns): further out glibc's erfc loses precision (an intermediate
+    exp() is subnormal, relative error ~1e-7) and phi of the unmodified code does wobble at
+    nanosecond scale (fixes/C13-phi-subnormal-tail-wobble.known.md); out there only the samples of the
+    case itself (spaced >= 1e-3 standard deviations) are taken."""
+    import heapq
+
+    val = {}
+    state = {"n": 0}
+
+    def ev(t):
+        v = val.get(t)
+        if v is None:
+            v = val[t] = f(t)
+            state["n"] += 1
+        return v
+
+    for t in base:
+        ev(t)
+    lo, hi = base[0], base[-1]
+    if hi - lo < 2:
+        return sorted(val)
+
+    def bisect_to(a, b, level):
+        """val[a] < level <= val[b]  ->  adjacent (a, b) with the same property"""
+        while b - a > 1:
+            c = (a + b) // 2
+            if ev(c) >= level:
+                b = c
+            else:
+                a = c
+        return a, b
+
+    def first_crossing(level, upto):
+        ts = [t for t in sorted(val) if t <= upto]
+        for a, b in zip(ts, ts[1:]):
+            if not val[a] >= level and val[b] >= level:
+                return a, b
+        return None
+
+    # where the tail probability leaves the normal range
+    if val[lo] >= _SUBNORMAL:
+        return sorted(val)
+    br = first_crossing(_SUBNORMAL, hi)
+    if br is not None:
+        hi = min(hi, bisect_to(br[0], br[1], _SUBNORMAL)[1] + (1 << 20))
+
+    def samples():
+        return [t for t in sorted(val) if t <= hi]
+
+    def bad():
+        ts = sorted(val)
+        for a, b in zip(ts, ts[1:]):
+            va, vb = val[a], val[b]
+            if va != va or vb != vb or vb < va:
+                return True
+        return False
+
+    # -- A: bounded increments: 0.05 below phi = 20, 5 % (at least 2) beyond
+    def subdivide(near, cap):
+        heap = []
+
+        def push(a, b):
+            if b - a < 2:
+                return
+            va, vb = val[a], val[b]
+            if (va < 20.0) != near:
+                return
+            tol = 0.05 if near else max(2.0, 0.05 * va)
+            g = (400.0 if va != math.inf else 0.0) if vb == math.inf else vb - va
+            if g > tol:
+                heapq.heappush(heap, (-g / tol, a, b))
+
+        ts = samples()
+        for a, b in zip(ts, ts[1:]):
+            push(a, b)
+        stop = state["n"] + cap
+        while heap and state["n"] < stop:
+            _, a, b = heapq.heappop(heap)
+            c = (a + b) // 2
+            ev(c)
+            push(a, c)
+            push(c, b)
+
+    # -- B: level crossings and a dyadic ladder around each
+    def levels():
+        for level in phi_levels(thr):
+            if state["n"] >= budget:
+                break
+            br = first_crossing(level, hi)
+            if br is None:
+                continue
+            reach = max(1 << 10, 64 * (br[1] - br[0]))
+            a, b = bisect_to(br[0], br[1], level)
+            d = 1
+            while d <= reach:
+                for t in (b - d, b + d):
+                    if lo <= t <= hi:
+                        ev(t)
+                d *= 2
+            if bad():
+                return
+
+    # -- C: slope anomalies (run before and after the level stage)
+    def slopes():
+        ts = samples()
+        out = []
+        for a, b in zip(ts, ts[1:]):
+            va, vb = val[a], val[b]
+            out.append((a, b, (vb - va) / (b - a) if vb != math.inf and va != math.inf else None))
+        return out
+
+    def descend(a, b, ref, sign):
+        """sign = +1: look for the half whose slope falls short of `ref` (slope of the left
+        neighbour); sign = -1: for the half whose slope exceeds `ref` (slope of the right neighbour)"""
+        while b - a > 1 and state["n"] < budget:
+            c = (a + b) // 2
+            va, vc, vb = val[a], ev(c), val[b]
+            if vc != vc or vc == math.inf:
+                return
+            if vc < va:
+                b = c
+                continue
+            if vb < vc:
+                a = c
+                continue
+            sl, sr = (vc - va) / (c - a), (vb - vc) / (b - c)
+            if sign > 0:
+                dl, dr = ref - sl, max(sl, ref) - sr
+                if dl >= dr:
+                    b = c
+                else:
+                    a, ref = c, max(sl, ref)
+            else:
+                dl, dr = sl - min(sr, ref), sr - ref
+                if dr >= dl:
+                    a = c
+                else:
+                    b, ref = c, min(sr, ref)
+
+    def anomalies(rounds):
+        for _ in range(rounds):
+            sl = slopes()
+            short, excess = [], []
+            for i in range(1, len(sl)):
+                (a0, b0, s0), (a1, b1, s1) = sl[i - 1], sl[i]
+                if s0 is None or s1 is None:
+                    continue
+                if b1 - a1 >= 2 and s1 < s0:
+                    short.append(((s0 - s1) * (b1 - a1), a1, b1, s0))
+                if b0 - a0 >= 2 and s0 > s1:
+                    excess.append(((s0 - s1) * (b0 - a0), a0, b0, s1))
+            short.sort(reverse=True)
+            excess.sort(reverse=True)
+            for _, a, b, ref in short[:6]:
+                descend(a, b, ref, +1)
+            for _, a, b, ref in excess[:2]:
+                descend(a, b, ref, -1)
+            if bad() or state["n"] >= budget:
+                break
+
+    subdivide(True, budget // 5)
+    subdivide(False, budget // 8)
+    if bad():
+        return sorted(val)
+    anomalies(1)
+    if bad():
+        return sorted(val)
+    levels()
+    if bad():
+        return sorted(val)
+    anomalies(2)
+    return sorted(val)
+
+
+def _op_ns(op):
+    return op[1] * U + (op[2] if len(op) > 2 else 0)
+
+
+def _new_detector(case):
     from happysimulator.components.consensus.phi_accrual_detector import PhiAccrualDetector
 
     init = case.get("init")
-    d = PhiAccrualDetector(threshold=case["thr"], max_sample_size=case.get("maxn", 200),
-                           initial_interval=(init / 512.0 if init else None))
-    out = []
+    return PhiAccrualDetector(threshold=case["thr"], max_sample_size=case.get("maxn", 200),
+                              initial_interval=(init / 512.0 if init else None))
+
+
+def phi_budgets(case):
+    """how many adaptively chosen samples each silence gets: a dry run over the coarse samples with a
+    scratch detector ranks the silences by the suspicion level they reach (capped at 20: beyond the
+    documented thresholds all are alike; later silences first among equals)"""
+    total = case.get("refine_budget", 5200)
+    d = _new_detector(case)
+    reach, k = {}, 0
     for op in case["ops"]:
-        ns = op[1] * U + (op[2] if len(op) > 2 else 0)
-        t = ns / 1e9
         if op[0] == "h":
-            d.heartbeat(t)
+            d.heartbeat(_op_ns(op) / 1e9)
+            k += 1
+        else:
+            v = d.phi(_op_ns(op) / 1e9)
+            v = 20.0 if v != v or v > 20.0 else v
+            reach[k] = max(reach.get(k, 0.0), v)
+    out = {}
+    for k in sorted(reach, key=lambda k: (-reach[k], -k)):
+        out[k] = min(2600, total)
+        total -= out[k]
+    return out
+
+
+def run_phi(case):
+    d = _new_detector(case)
+    refine = case.get("refine", 1)
+    budgets = phi_budgets(case) if refine else {}
+    out = []
+    seg = []
+    st = {"k": 0}
+
+    def flush():
+        if not seg:
+            return
+        times = list(seg)
+        b = budgets.get(st["k"], 0)
+        if b > 0 and all(x <= y for x, y in zip(seg, seg[1:])):
+            times = refine_samples(lambda ns: d.phi(ns / 1e9), seg, case["thr"], budget=b)
+        for ns in times:
+            t = ns / 1e9
+            out.append(f"q {ns} {1 if d.is_available(t) else 0} {fbits(d.phi(t))}")
+        del seg[:]
+
+    for op in case["ops"]:
+        ns = _op_ns(op)
+        if op[0] == "h":
+            flush()
+            d.heartbeat(ns / 1e9)
+            st["k"] += 1
             s = d.stats
             out.append(f"h {ns} {s.heartbeats_received} {fbits(s.mean_interval)} {fbits(s.std_interval)}")
         else:
-            out.append(f"q {ns} {1 if d.is_available(t) else 0} {fbits(d.phi(t))}")
+            seg.append(ns)
+    flush()
     return out
 
 
@@ -351,17 +621,28 @@ class C13(core.Property):
     thorough_cases = 8000
     case_timeout_s = 240  # event-count watchdog bounds real hangs; the wall limit only has to survive a loaded machine
     search_budget = {"quick": 150, "thorough": 3000}
-    rule = ("family cluster: 3–8 MembershipProtocol nodes in the real Simulation/Network for 8–40 probe rounds; "
+    rule = ("family cluster: 2–8 MembershipProtocol nodes in the real Simulation/Network for 8–40 probe rounds; "
             "probe interval 1/16–2 s, suspicion timeout from below interval/2 to 5 intervals, phi threshold 1–16, "
+            "indirect_probe_count 0–8, "
             "per-message one-way delays drawn from [0, dmax] with dmax from 1/512 s to 2 intervals (on / just below / "
-            "just above interval/2), 0–3 crashes (before the first tick, on a tick, mid-run), optional start offsets, "
-            "forged late gossip; one third of the clusters run over a network that is partitioned with the real "
+            "just above interval/2), 0–3 crashes (before the first tick, on a tick, mid-run; up to all members but one), "
+            "optional start offsets, forged late gossip; one sixth are detection scenarios in which an observer has "
+            "nobody to relay an indirect probe through (a pair, indirect_probe_count = 0, all other peers crashed — "
+            "mostly before anybody heard from them — with short suspicion timeouts so that they are DEAD when the next "
+            "victim is probed), small delays and a horizon beyond every detection deadline; "
+            "one third of the clusters run over a network that is partitioned with the real "
             "Network.partition()/Partition.heal(): a victim cut off from some peers for good, from all peers and "
             "re-connected, a minority split, overlapping handles, a flapping cut — mostly with no crash at all; "
             "non-trivial = at least one message delivered; family phi: stand-alone detector, heartbeats on a 1/512 s "
             "grid, samples at ns resolution around the threshold crossing and along a long silence placed by "
             "standardised distance (−3 … 10^5 standard deviations), dense through the range where the tail "
-            "probability is a subnormal double and across its underflow to 0 (phi = +inf); "
+            "probability is a subnormal double and across its underflow to 0 (phi = +inf); every silence is then "
+            "re-sampled adaptively from the implementation's own values (up to 2600 further samples per silence, 5200 "
+            "per case): subdivision until consecutive samples differ by <= 0.05 below phi = 20 (5 % beyond), for every "
+            "level 1..16 / the threshold / the phi values at the libm-erfc break points / subnormal / +inf a bisection "
+            "to 1 ns and probes at +-1, 2, 4, ... ns around the crossing, and bisection to 1 ns into the intervals whose "
+            "slope falls short of their left neighbour's (exact phi is convex: the normal tail is log-concave) or "
+            "exceeds their right neighbour's; "
             "distinct = distinct case content")
     trusted_base = [
         "hv/props/c13.py harness (Node subclass logging delivered events, crash = node ignores events, "
@@ -373,6 +654,9 @@ class C13(core.Property):
         "real engine event ordering (C01) decides the schedule; the model replays it and rejects overdue timers",
         "partition()/heal() calls are issued 1 ns after a grid instant, so 'blocked when sent' (public is_partitioned, "
         "logged by the harness) equals 'blocked when routed' (cross-checked inside a Network subclass)",
+        "adaptive phi sampling (refine_samples) chooses sample times from the values the implementation returns; it "
+        "only adds samples — every value judged was returned by PhiAccrualDetector.phi for a time inside the silence, "
+        "in increasing time order; convexity of phi is a search heuristic, never a judged clause",
         "phi values cross the protocol as IEEE-754 bit patterns; for non-negative doubles the order of the patterns is "
         "the order of the values (Spec.pvOfBits), +inf = 0x7FF0000000000000",
     ]
@@ -382,6 +666,10 @@ class C13(core.Property):
         "'a bound well below the probe interval' is read as 2*delta < probe_interval/2 + suspicion_timeout "
         "(implied by delta < probe_interval/2 <= suspicion_timeout); delta is the largest one-way delay observed",
         "detection bound: crash + delta + ((crashes+1)*(n-1)+2) probe intervals + interval/2",
+        "adaptive phi sampling is confined to the part of a silence in which the tail probability is a normal double "
+        "(phi <= 307.65, plus 2^20 ns): beyond, glibc's erfc is accurate to ~1e-7 only and phi of the unmodified code "
+        "wobbles at nanosecond scale (fixes/C13-phi-subnormal-tail-wobble.known.md); there only the case's own samples "
+        "(>= 1e-3 standard deviations apart) are taken, and judged strictly",
         "clauses 1 and 2 are judged only on runs in which the network refused no message (no send across an active "
         "partition) and nothing was forged; clause 3 (DEAD is not ALIVE again without a higher incarnation) is judged "
         "on every run, over the whole history of each cell, not just consecutive reports",
@@ -392,7 +680,12 @@ class C13(core.Property):
         "2*delta < half + susp (no_false_death)",
         "tail antitone, nlog antitone on positives and non-negative on the range of tail, 0 < sd (phi_monotone)",
         "QuietRun a x: nothing from x and no 'alive' update about x is delivered to a (failure_detected_*_partial)",
-        "c.fix = true, i.e. the repaired _handle_indirect_ping (failure_detected_partial)",
+        "c.fix = true, i.e. the repaired _handle_indirect_ping (failure_detected_partial, no_delegate_detected, "
+        "unacked_probe_dead_after_suspicion, lone_observer_detects)",
+        "indirect_probe_count = 0 or an empty shuffled candidate list (no_delegate_detected); n = 2 or every other "
+        "peer DEAD in the observer's view (no_delegate_candidates)",
+        "Lone x: the observer's probe order is [x] and x is not DEAD; the oracle shuffle of a one-element list is that "
+        "list (lone_observer_detects); tick at most one interval after crash + delta (lone_observer_within_deadline)",
     ]
     partial_theorems = {
         "HappyModel.C13.failure_detected_partial":
@@ -409,11 +702,76 @@ class C13(core.Property):
 
     # ------------------------------------------------------------------ generation
     def generate(self, rng: random.Random, i: int, tier: str) -> dict:
+        # quick tier: ~250 cases take ~20 s in-process; on a loaded machine the fork pool is slower
+        # than that and its stalls show up as IMPL-TIMEOUT.  Thorough keeps the pool.
+        self.pool_workers = 1 if tier == "quick" else None
         if i % 6 == 5:
             return self.gen_phi(rng, tier)
         if i % 6 in (1, 3):
             return self.gen_partition(rng, tier)
+        if i % 12 in (4, 8):
+            return self.gen_detect(rng, tier)
         return self.gen_cluster(rng, tier)
+
+    INDIRECT = [3, 3, 1, 0, 2, 0, 5, 8]
+
+    def gen_detect(self, rng, tier):
+        """clause 2 under stress: observers that have nobody to relay an indirect probe through.
+        Shapes: a pair (n = 2: there never is a delegate), indirect_probe_count = 0 in a larger
+        cluster, all members but one (or two) crash — most of them at the start, before anybody has
+        heard from them, so that the phi detector has nothing to go on and every other peer is DEAD
+        by the time a later victim is probed — and a count of 1–2 with as many crashes.  Delays are
+        small (the bound `2*delta < half + susp` holds) and the run is long enough for the deadline
+        `detectDeadline` of every crash to pass, so clause 2 is really judged."""
+        shape = rng.choice(["pair", "pair", "nodelegates", "nodelegates", "masscrash", "masscrash", "fewdelegates"])
+        ivu = rng.choice([32, 64, 128, 256, 512])
+        half = ivu // 2
+        if shape == "pair":
+            n, k = 2, 1
+            indirect = rng.choice([0, 1, 3, 3, 5])
+        elif shape == "nodelegates":
+            n = rng.choice([3, 3, 4, 5, 6])
+            k = rng.choice([1, 1, 2, n - 1])
+            indirect = 0
+        elif shape == "masscrash":
+            n = rng.choice([3, 3, 4, 4, 5])
+            k = rng.choice([n - 1, n - 1, n - 2])
+            indirect = rng.choice([0, 1, 2, 3, 3, n])
+        else:
+            n = rng.choice([3, 4, 5])
+            k = rng.choice([1, 2])
+            indirect = rng.choice([1, 1, 2])
+        k = max(1, min(k, n - 1))
+        if shape == "masscrash":
+            # short suspicion timeouts: the first victims are DEAD before the later ones are probed
+            susp = rng.choice([max(1, half // 2), half, half, ivu, ivu, ivu + half])
+        else:
+            susp = rng.choice([max(1, half // 2), half, half + 1, ivu, ivu + half, 2 * ivu, 3 * ivu + 1, 5 * ivu])
+        dmax = rng.choice([1, 1, 2, max(1, half // 4), max(1, half // 2), max(1, half - 1)])
+        while 2 * dmax >= half + susp:
+            dmax = max(1, dmax // 2)
+            if dmax == 1 and 2 >= half + susp:
+                susp += 1
+        offs = [0] * n
+        if rng.random() < 0.4:
+            offs = [rng.randrange(ivu) for _ in range(n)]
+        victims = rng.sample(range(n), k)
+        crashes = []
+        for x in victims:
+            mode = rng.random()
+            if mode < 0.6:     # before its own first tick and before any peer probes it: never heard from
+                t = rng.choice([0, 0, 1, half, ivu - 1, min(offs) + ivu - 1])
+            elif mode < 0.8:   # around the first round of probes
+                t = rng.randint(ivu, (n + 1) * ivu)
+            else:
+                t = rng.randint(1, 6) * ivu + rng.choice([-1, 0, 1, half])
+            crashes.append([x, max(0, t)])
+        last = max(t for _, t in crashes)
+        ticks = (k + 1) * (n - 1) + 2
+        rounds = ticks + (last + dmax + max(offs)) // ivu + rng.choice([2, 3, 6])
+        return {"family": "cluster", "n": n, "iv": ivu, "susp": susp, "thr": rng.choice([1.0, 8.0, 8.0, 8.0, 16.0]),
+                "indirect": indirect, "rounds": rounds, "seed": rng.getrandbits(32), "dmax": dmax,
+                "dmode": rng.choice(["uniform", "const", "bimodal"]), "crashes": crashes, "offs": offs}
 
     def gen_partition(self, rng, tier):
         """clusters whose network is cut for a while: nobody has to crash for views to diverge.
@@ -421,7 +779,7 @@ class C13(core.Property):
         (or a minority) cut off from everybody and re-connected later, two overlapping partitions,
         a random split; each with fast links, so that every DEAD verdict is caused by the cut, and
         long enough for suspicion, death, gossip about it and contact after it."""
-        n = rng.choice([3, 4, 4, 5, 5, 5, 6, 7])
+        n = rng.choice([2, 3, 4, 4, 5, 5, 5, 6, 7])
         ivu = rng.choice([32, 64, 128, 256, 512])
         half = ivu // 2
         susp = rng.choice([half, ivu, ivu, ivu + half, ivu + half, 2 * ivu, 3 * ivu + 1, max(1, half // 2)])
@@ -469,7 +827,7 @@ class C13(core.Property):
         offs = [0] * n
         if rng.random() < 0.4:
             offs = [rng.randrange(ivu) for _ in range(n)]
-        case = {"family": "cluster", "n": n, "iv": ivu, "susp": susp, "thr": thr, "indirect": rng.choice([3, 3, 1, 0, 2]),
+        case = {"family": "cluster", "n": n, "iv": ivu, "susp": susp, "thr": thr, "indirect": rng.choice(self.INDIRECT),
                 "rounds": rounds, "seed": rng.getrandbits(32), "dmax": dmax, "dmode": dmode,
                 "crashes": crashes, "offs": offs, "parts": parts}
         if rng.random() < 0.25:
@@ -482,7 +840,7 @@ class C13(core.Property):
         return case
 
     def gen_cluster(self, rng, tier):
-        n = rng.choice([3, 3, 4, 4, 5, 5, 6, 7, 8])
+        n = rng.choice([2, 3, 3, 4, 4, 5, 5, 6, 7, 8])
         ivu = rng.choice([32, 64, 128, 256, 512, 1024])
         half = ivu // 2
         susp = rng.choice([half, half + 1, ivu, ivu, 2 * ivu, 3 * ivu + 1, 5 * ivu, 5 * ivu, max(1, half - 1), max(1, half // 2)])
@@ -494,7 +852,8 @@ class C13(core.Property):
         horizon = rounds * ivu
         crashes = []
         k = rng.choice([0, 0, 1, 1, 1, 2, 3 if n >= 5 else 1])
-        victims = rng.sample(range(n), min(k, n - 2))
+        # at least one observer stays; now and then only one (nobody left to relay an indirect probe)
+        victims = rng.sample(range(n), min(k, n - 1 if rng.random() < 0.25 else max(0, n - 2)))
         for x in victims:
             mode = rng.random()
             if mode < 0.25:
@@ -520,10 +879,10 @@ class C13(core.Property):
                     ups.append([rng.randrange(n), rng.choice("sdaaa"), rng.choice([0, 0, 1, 1, 2, 3])])
                 inject.append([rng.randint(1, horizon), src, dst, ups])
         if inject:
-            return {"family": "cluster", "n": n, "iv": ivu, "susp": susp, "thr": thr, "indirect": rng.choice([3, 3, 1, 0, 2]),
+            return {"family": "cluster", "n": n, "iv": ivu, "susp": susp, "thr": thr, "indirect": rng.choice(self.INDIRECT),
                     "rounds": rounds, "seed": rng.getrandbits(32), "dmax": dmax, "dmode": dmode,
                     "crashes": crashes, "offs": offs, "inject": inject}
-        return {"family": "cluster", "n": n, "iv": ivu, "susp": susp, "thr": thr, "indirect": rng.choice([3, 3, 1, 0, 2]),
+        return {"family": "cluster", "n": n, "iv": ivu, "susp": susp, "thr": thr, "indirect": rng.choice(self.INDIRECT),
                 "rounds": rounds, "seed": rng.getrandbits(32), "dmax": dmax, "dmode": dmode,
                 "crashes": crashes, "offs": offs}
 
@@ -559,7 +918,10 @@ class C13(core.Property):
             seg.sort(key=lambda o: o[1] * U + o[2])
             ops += seg
             t = max([t, q + 1] + [o[1] + 1 for o in seg])
-        return {"family": "phi", "thr": thr, "init": init, "maxn": maxn, "ops": ops}
+        case = {"family": "phi", "thr": thr, "init": init, "maxn": maxn, "ops": ops}
+        if tier == "thorough":
+            case["refine_budget"] = 2600   # (adaptive samples per case; the default of the quick tier is 5200)
+        return case
 
     def tail_samples(self, rng, last, window, thr, mode):
         """a long silence: sample times placed by standardised distance y = (elapsed - mean)/sd from the
@@ -631,19 +993,35 @@ class C13(core.Property):
     # ------------------------------------------------------------------ model / judge
     def model_block(self, case, variant):
         if case["family"] == "phi":
-            init = case.get("init")
-            hdr = f"phi {fbits(ystar(case['thr']))} {1 if 0.0 < case['thr'] else 0} {case.get('maxn', 200)} " \
-                  f"{fbits(init / 512.0) if init else 'none'}"
-            body = []
-            impl = run_phi(case)  # phi bit patterns are echoed by the model (judged, not compared)
-            for op, line in zip(case["ops"], impl):
-                ns = op[1] * U + (op[2] if len(op) > 2 else 0)
-                body.append(f"h {ns}" if op[0] == "h" else f"q {ns} {line.split()[3]}")
-            return (hdr, body)
+            return self.model_block_from_impl(case, variant, run_phi(case))
         ivu = case["iv"]
         hdr = (f"cluster {case['n']} {ivu * U} {ivu // 2 * U} {case['susp'] * U} {case.get('indirect', 3)} "
                f"{0 if variant == 'current' else 1} {fbits(ystar(case['thr']))} {1 if 0.0 < case['thr'] else 0} {fbits(ivu / 512.0)}")
         return (hdr, self._schedule(case))
+
+    def model_block_from_impl(self, case, variant, impl_out):
+        """phi family: the sample times were chosen adaptively while the implementation ran (they are
+        listed in its transcript), the model is asked about exactly those times; the heartbeats come
+        from the case.  The phi bit patterns are echoed by the model (judged, not compared)."""
+        if case["family"] != "phi":
+            return self.model_block(case, variant)
+        init = case.get("init")
+        hdr = f"phi {fbits(ystar(case['thr']))} {1 if 0.0 < case['thr'] else 0} {case.get('maxn', 200)} " \
+              f"{fbits(init / 512.0) if init else 'none'}"
+        body = []
+        hs = [op[1] * U + (op[2] if len(op) > 2 else 0) for op in case["ops"] if op[0] == "h"]
+        if impl_out and impl_out[0].startswith("IMPL-"):
+            return (hdr, [f"h {ns}" for ns in hs])
+        k = 0
+        for line in impl_out:
+            ts = line.split()
+            if ts[0] == "h":
+                body.append(f"h {hs[k] if k < len(hs) else ts[1]}")
+                k += 1
+            elif ts[0] == "q" and len(ts) >= 4:
+                body.append(f"q {ts[1]} {ts[3]}")
+        body += [f"h {ns}" for ns in hs[k:]]
+        return (hdr, body)
 
     def judge_block(self, case, impl_out):
         if impl_out and impl_out[0].startswith("IMPL-"):
@@ -709,7 +1087,7 @@ class C13(core.Property):
             c = dict(case)
             c["offs"] = [0] * case["n"]
             yield c
-        if case["n"] > 3:
+        if case["n"] > 2:
             top = case["n"] - 1
             if all(x != top for x, _ in case.get("crashes", [])) and not case.get("inject") and \
                     all(top not in pt[1] and top not in pt[2] for pt in case.get("parts", [])):
@@ -752,7 +1130,7 @@ class C13(core.Property):
         elif k < 0.7:
             x = rng.randrange(c["n"])
             c["crashes"] = [cr for cr in c["crashes"] if cr[0] != x]
-            if len(c["crashes"]) < c["n"] - 2:
+            if len(c["crashes"]) < c["n"] - 1:
                 c["crashes"].append([x, rng.randint(0, c["rounds"] * c["iv"])])
         elif k < 0.85:
             c["susp"] = max(1, c["susp"] + rng.choice([-1, 1, c["iv"]]))
@@ -774,6 +1152,11 @@ THEOREMS = [
     "HappyModel.C13.phi_monotone",
     "HappyModel.C13.failure_detected_partial",
     "HappyModel.C13.failure_detected_by_phi_partial",
+    "HappyModel.C13.no_delegate_detected",
+    "HappyModel.C13.no_delegate_candidates",
+    "HappyModel.C13.unacked_probe_dead_after_suspicion",
+    "HappyModel.C13.lone_observer_detects",
+    "HappyModel.C13.lone_observer_within_deadline",
     "HappyModel.C13.current_unacked_probe_keeps_alive",
 ]
 C13.theorems = THEOREMS
